@@ -138,3 +138,50 @@ def run_bind_last(chk):
                               "be repeated" % (short, " ".join(fn.text(bad).split())[:50] if bad is not None else "", fn.line_of(bad) if bad is not None else ""),
                        key="bindlast|%s" % short)
     chk.floor(RL + ":binds", n, 2)
+
+
+def run_error_codes(chk):
+    RE = "R-ERROR-CODE-SIBLINGS"
+    chk.rule(RE, "for every emitter interface function implemented by both BaseAssembler and BaseBuilder: each Error constant the Builder's "
+                 "version can return itself also occurs in the Assembler's version or in the CodeHolder / CodeWriter functions it calls "
+                 "(kOutOfMemory and kNotInitialized aside): the same rejected call fails with the same code in both front ends")
+    fa = chk.facts("asmjit/core/assembler.cpp", funcs=r"asmjit::BaseAssembler::[a-z_0-9]+$")
+    fb = chk.facts("asmjit/core/builder.cpp", funcs=r"asmjit::BaseBuilder::[a-z_0-9]+$")
+    fc = chk.facts("asmjit/core/codeholder.cpp", funcs=r"asmjit::CodeHolder::[a-z_0-9]+$")
+    callee_fns = {}
+    for fo in fc["functions"] + fa["functions"]:
+        g = cfg.Fn(fo)
+        callee_fns.setdefault(g.name, []).append(g)
+
+    def codes(fn, depth=0, seen=()):
+        out = set()
+        for i, x in fn.ex.items():
+            if x["k"] == "ref" and x.get("dk") == "enumconst" and (x.get("qn") or "").startswith("asmjit::Error::") and x.get("name") != "kOk":
+                out.add(x["name"])
+        if depth < 2:
+            for i, x in fn.calls():
+                for h in callee_fns.get(x.get("callee") or "", []):
+                    if h.name not in seen and h is not fn:
+                        out |= codes(h, depth + 1, seen + (fn.name,))
+        return out
+    A, B = {}, {}
+    for fo in fa["functions"]:
+        g = cfg.Fn(fo)
+        if g.file.endswith("assembler.cpp"):
+            A.setdefault("%s/%d" % (g.name.split("::")[-1], len(g.params)), g)
+    for fo in fb["functions"]:
+        g = cfg.Fn(fo)
+        if g.file.endswith("builder.cpp"):
+            B.setdefault("%s/%d" % (g.name.split("::")[-1], len(g.params)), g)
+    n = 0
+    for k in sorted(set(A) & set(B)):
+        cb = {c for c in codes(B[k], depth=2) if c not in ("kOutOfMemory", "kNotInitialized")}
+        if not cb:
+            continue
+        ca = codes(A[k])
+        n += 1
+        extra = sorted(cb - ca)
+        chk.ob(RE, "BaseBuilder::%s" % k, not extra, loc="%s:%d" % (B[k].file.replace("/repo/", ""), B[k].line),
+               detail="BaseBuilder::%s can fail with %s, which BaseAssembler::%s (and what it calls) never returns (it has: %s)" %
+                      (k.split("/")[0], ", ".join(extra), k.split("/")[0], ", ".join(sorted(ca))), key="errcodes|%s" % k)
+    chk.floor(RE + ":pairs", n, 3)
